@@ -51,15 +51,16 @@ func pick[T any](r *hx.Rng, xs ...T) T { return xs[r.Intn(len(xs))] }
 
 // SpecKnobs lets a scenario bias the random preset.
 type SpecKnobs struct {
-	Epochs         int  // planned chain length in epochs: fork epochs are drawn so that they fall inside
-	PlainMinimal   bool // minimal preset untouched except fork epochs
-	AllForksInside bool // force all four fork epochs < Epochs-1
+	Epochs         int    // planned chain length in epochs: fork epochs are drawn so that they fall inside
+	PlainMinimal   bool   // minimal preset untouched except fork epochs
+	AllForksInside bool   // force all four fork epochs < Epochs-1
+	WideForks      bool   // fork epochs anywhere in 1..epochs-4 instead of 1..6
 	ForkBias       string // "late": forks at the last four possible epochs; "early": 1,2,3,4
-	ShortSlashings bool // EPOCHS_PER_SLASHINGS_VECTOR 4, MIN_VALIDATOR_WITHDRAWABILITY_DELAY 1: slashed validators become withdrawable within the chain
-	FastEth1       bool // EPOCHS_PER_ETH1_VOTING_PERIOD 1
-	HugeRewards    bool // BASE_REWARD_FACTOR 2^14..2^16: a missed epoch costs a noticeable share of an increment
-	StrongPenalty  bool // large base reward / small inactivity quotients so balances move fast
-	EjectionNear   bool // EJECTION_BALANCE one or two increments below MAX_EFFECTIVE_BALANCE
+	ShortSlashings bool   // EPOCHS_PER_SLASHINGS_VECTOR 4, MIN_VALIDATOR_WITHDRAWABILITY_DELAY 1: slashed validators become withdrawable within the chain
+	FastEth1       bool   // EPOCHS_PER_ETH1_VOTING_PERIOD 1
+	HugeRewards    bool   // BASE_REWARD_FACTOR 2^14..2^16: a missed epoch costs a noticeable share of an increment
+	StrongPenalty  bool   // large base reward / small inactivity quotients so balances move fast
+	EjectionNear   bool   // EJECTION_BALANCE one or two increments below MAX_EFFECTIVE_BALANCE
 	SmallChurn     bool
 	ShortLeak      bool
 	SmallSweep     bool
@@ -69,6 +70,9 @@ type SpecKnobs struct {
 // ForkSchedule draws sorted fork epochs. Later forks may be equal to earlier ones or FAR_FUTURE.
 func ForkSchedule(r *hx.Rng, k SpecKnobs) [4]uint64 {
 	hi := 6
+	if k.WideForks && k.Epochs-4 > hi {
+		hi = k.Epochs - 4
+	}
 	if k.Epochs-2 < hi {
 		hi = k.Epochs - 2
 	}
@@ -203,7 +207,7 @@ func TinySpec(r *hx.Rng, k SpecKnobs) *common.Spec {
 	sp.MAX_BLOB_COMMITMENTS_PER_BLOCK = view.Uint64View(pick(r, 8, 32))
 	sp.MAX_TRANSACTIONS_PER_PAYLOAD = view.Uint64View(pick(r, 16, 1048576))
 	if k.EjectionNear {
-		sp.EJECTION_BALANCE = sp.MAX_EFFECTIVE_BALANCE - common.Gwei(pick(r, 1, 2, 3))*sp.EFFECTIVE_BALANCE_INCREMENT
+		sp.EJECTION_BALANCE = sp.MAX_EFFECTIVE_BALANCE - sp.EFFECTIVE_BALANCE_INCREMENT
 	} else if r.Chance(30) {
 		sp.EJECTION_BALANCE = sp.MAX_EFFECTIVE_BALANCE - common.Gwei(2+r.Intn(6))*sp.EFFECTIVE_BALANCE_INCREMENT
 	}
@@ -225,7 +229,7 @@ func TinySpec(r *hx.Rng, k SpecKnobs) *common.Spec {
 		sp.MAX_SEED_LOOKAHEAD = common.Epoch(pick(r, 1, 2))
 	}
 	if k.HugeRewards {
-		sp.BASE_REWARD_FACTOR = view.Uint64View(pick(r, 16384, 32768, 65536))
+		sp.BASE_REWARD_FACTOR = view.Uint64View(pick(r, 32768, 65536))
 	}
 	if r.Chance(40) {
 		sp.MIN_SLASHING_PENALTY_QUOTIENT = view.Uint64View(pick(r, 8, 32, 64))
